@@ -481,7 +481,8 @@ impl World {
                     let Ok(mut c) = TcpStream::connect(("127.0.0.1", sp)).await else { return "connect-failed".to_owned() };
                     let _ = c.write_all(&[0x16, 0x03, 0x01, 0x02, 0x00, 0x01, 0x00]).await;
                     tokio::spawn(async move {
-                        tokio::time::sleep(Duration::from_secs(3)).await;
+                        // (longer than any flow is given: a listener that waits for this handshake serves nobody meanwhile)
+                        tokio::time::sleep(Duration::from_secs(14)).await;
                         drop(c);
                     });
                     "done".to_owned()
